@@ -36,6 +36,23 @@ BLOCKS = {
 DIVISORS = {'division-first': ['Y'], 'division-middle': ['Y']}
 
 
+def neighbour_solver(name, maxtime):
+    """Another solver in the same process: the same variable names and functions as the block under test, every numeric literal shifted by 1/8,
+    concrete exogenous paths.  It is parsed and solved while the solver under test is between its set-up and its periods."""
+    import re
+    text, A, k0, exo, funcs = BLOCKS[name]
+    shifted = re.sub(r'(?<![A-Za-z_0-9.])(?<!k-)(\d+\.?\d*)', lambda m: repr(float(m.group(1)) + 0.125), text)
+    full = shifted + '\nErr_Tolerance = 0.001\nMaxTime = %d\nexogenous\n' % maxtime + '\n'.join('%s = [2.0,]*%d' % (n, maxtime + 1) for n in exo)
+    o = EquationSolver(full, run_equation_reduction=True)
+    for fname, fobj in funcs.items():
+        o.AddFunction(fname, lambda v, fobj=fobj: fobj(v) + 3.0)      # same name, different meaning
+    try:
+        o.SolveEquation()
+    except ValueError:
+        pass
+    return o
+
+
 def norm_inf(A):
     return max(sum(abs(c) for c in row.values()) for row in A.values())
 
@@ -43,7 +60,8 @@ def norm_inf(A):
 def real_case(case):
     import time as _t
     _t0 = _t.time()
-    name, tol, cap, reduce, maxtime = case
+    name, tol, cap, reduce, maxtime = case[:5]
+    neighbour = case[5] if len(case) > 5 else None
     text, A, k0, exo, funcs = BLOCKS[name]
     full = text + '\nErr_Tolerance = %r\nMaxTime = %d' % (tol, maxtime)
     D = Driver(timeout_ms=15000, max_paths=60000, max_seconds=BUDGET[0])
@@ -90,6 +108,8 @@ def real_case(case):
             es.TimeSeries[nme][0] = SymReal(syms[nme + '@0'])
         try:
             for step in range(1, maxtime + 1):
+                if neighbour:
+                    neighbour_solver(name, maxtime)
                 es.SolveStep(step)
         except ConvergenceError:
             o = 'ConvergenceError'
@@ -178,6 +198,13 @@ def real_cases(tier):
             out.append((name, 1e-2, 4, False, 2))
     if tier == 'quick':
         out.append(('one-affine', 1e-2, 3, True, 2))
+    # the same solve with another solver (same names, other coefficients) parsed and solved before every period
+    for name in BLOCKS:
+        if tier == 'quick' and name in ('three-coupled', 'two-oscillating', 'division-middle'):
+            continue
+        out.append((name, 1e-2, 2, True, 2 if name in ('one-affine', 'lagged') else 1, 'neighbour'))
+        if tier == 'thorough':
+            out.append((name, 1e-2, 3, False if name != 'deco-tree' else True, 1, 'neighbour'))
     return out
 
 
@@ -186,8 +213,10 @@ import sys
 from fractions import Fraction as F
 from sfc_models.equation_solver import EquationSolver
 from sfc_models.equation_parser import EquationParser
-from vf.props.c02 import BLOCKS, norm_inf
-name, tol, cap, reduce, maxtime = %(case)r
+from vf.props.c02 import BLOCKS, norm_inf, neighbour_solver
+case = %(case)r
+name, tol, cap, reduce, maxtime = case[:5]
+neighbour = case[5] if len(case) > 5 else None
 vals = {k: float(F(v)) for k, v in %(vals)r.items()}
 text, A, k0, exo, funcs = BLOCKS[name]
 full = text + '\\nErr_Tolerance = %%r\\nMaxTime = %%d' %% (tol, maxtime)
@@ -197,7 +226,9 @@ for n in exo: es.Parser.Exogenous.append((n, [0.0] + [vals['%%s@%%d' %% (n, k)] 
 es.ExtractVariableList(); es.SetInitialConditions()
 for n in k0: es.TimeSeries[n][0] = vals[n + '@0']
 try:
-    for step in range(1, maxtime + 1): es.SolveStep(step)
+    for step in range(1, maxtime + 1):
+        if neighbour: neighbour_solver(name, maxtime)
+        es.SolveStep(step)
 except ValueError as e:
     print('raised', repr(e)); sys.exit(0)
 ts = es.TimeSeries
@@ -391,7 +422,7 @@ def run(tier, seed):
         chk.count('forks', o['forks'])
         chk.solver_s += o['solver_s']
         chk.queries += o['queries']
-        what = 'real: block %s tol=%g cap=%d reduction=%s periods=%d' % o['case']
+        what = 'real: block %s tol=%g cap=%d reduction=%s periods=%d' % tuple(o['case'][:5]) + (' with a same-named neighbour solver solved before every period' if len(o['case']) > 5 else '')
         if not o['exhaustive'] or o['unknown'] or o['dunknown']:
             chk.ob('unknown', what + ' (paths %d, unknown %d)' % (o['paths'], o['unknown'] + o['dunknown']))
         else:
